@@ -237,6 +237,7 @@ def alpha0_probe(ctx, seed):
                                  "calls": len(r0["rec"].calls), "wall_s": round(time.time() - t0, 2)}
     if r0["outcome"] == "budget":
         inp = sl.cfg_json(cfg0, pa)
+        inp["alpha"] = 0.0
         calls = r0["rec"].calls
         ctx.violation(f"path() with alpha=0 (accepted by validation) did not terminate within {budget} compute_val_score calls "
                       f"(= 100 x the {nref} calls of the same run with alpha=5); selected features stayed at "
@@ -254,8 +255,6 @@ def classify_raise(cfg, pa, e, rec):
     msg = str(e)
     if isinstance(e, ValueError) and "0 feature(s)" in msg and cfg["kw"].get("dynamic"):
         return "path:dynamic-empty-selection-raises"
-    if isinstance(e, UnboundLocalError) and pa.get("max_patience", 10) <= 0:
-        return "path:max-patience-0-unbound"
     return f"path:raise:{type(e).__name__}"
 
 
@@ -277,14 +276,18 @@ def one_case(ctx, cfg, pa, inject, lines, pending, sample):
     if run["outcome"] == "raise":
         e = run["exc"]
         ctx.case(canon, True, None)
+        if isinstance(e, UnboundLocalError) and pa.get("max_patience", 10) <= 0:
+            # max_patience <= 0 is outside the documented domain: no verdict, but the model must say the same
+            # (`iteration_gemini_score` read before assignment) and `clf.alpha` must be restored by the `finally`
+            ctx.count("out of scope: max_patience <= 0 -> UnboundLocalError (modelled as unboundScore)")
+            if run["rec"].calls:
+                init, steps = sl.segment(run["rec"].calls)
+                lines.append(sl.path_line(d, cfg["kw"]["max_iter"], cfg["kw"]["alpha"], pa, bool(cfg["kw"].get("dynamic", False)),
+                                          cfg["y"] is not None, init, steps))
+                pending.append((cfg, pa, {"unbound": True, "alpha_after": run["model"].alpha}, init, steps, inp))
+            return
         ctx.count(f"path raised {type(e).__name__}")
         ctx.violation(f"path() raised {type(e).__name__}: {str(e)[:300]}", "path", inp, key=classify_raise(cfg, pa, e, run["rec"]), how=HOW)
-        if isinstance(e, UnboundLocalError) and run["rec"].calls:
-            # the model must say the same: `iteration_gemini_score` read before assignment
-            init, steps = sl.segment(run["rec"].calls)
-            lines.append(sl.path_line(d, cfg["kw"]["max_iter"], cfg["kw"]["alpha"], pa, bool(cfg["kw"].get("dynamic", False)),
-                                      cfg["y"] is not None, init, steps))
-            pending.append((cfg, pa, {"unbound": True}, init, steps, inp))
         return
     init, steps = sl.segment(run["rec"].calls)
     T = len(run["res"][3])
@@ -310,12 +313,6 @@ def one_case(ctx, cfg, pa, inject, lines, pending, sample):
     lines.append(sl.path_line(d, cfg["kw"]["max_iter"], cfg["kw"]["alpha"], pa, bool(cfg["kw"].get("dynamic", False)),
                               cfg["y"] is not None, init, steps))
     pending.append((cfg, pa, run, init, steps, inp))
-
-
-def synthetic_traces(ctx, rs, n):
-    """model-only fidelity probes on synthetic traces are NOT used: every trace fed to the model comes from a real path.
-    (kept as a named no-op so that the rule text stays honest)"""
-    return
 
 
 def run(ctx):
@@ -350,7 +347,7 @@ def run(ctx):
         if quick and time.time() - t0 > 40:
             ctx.notes.append(f"quick tier: stopped generating after {it + 1} paths (time box)")
             break
-    # documented-but-unvalidated corner: max_patience = 0
+    # outside the documented domain, model-only: max_patience = 0
     cfg = sl.gen_config(rs, True, quick, family="SparseLinearModel")
     cfg["kw"]["dynamic"] = False
     pa = dict(alpha_multiplier=2.0, min_features=1, keep_threshold=0.9, early_stopping_factor=0.99, max_patience=0, restore_best_weights=True)
@@ -363,11 +360,12 @@ def run(ctx):
     for (cfg, pa, run_, init, steps, inp), ans in zip(pending, answers):
         if run_.get("unbound"):
             ctx.compared("path-unbound")
-            if sl.parse_path_answer(ans)["exit"] != "unboundScore":
-                ctx.corr_break("path-unbound", inp, {"impl": "UnboundLocalError", "model": ans[:200]})
+            m = sl.parse_path_answer(ans)
+            if m["exit"] != "unboundScore" or m["clfalpha"] != sl.hx(run_["alpha_after"]):
+                ctx.corr_break("path-unbound", inp, {"impl": ["UnboundLocalError", sl.hx(run_["alpha_after"])], "model": ans[:200]})
             continue
         compare_model(ctx, cfg, pa, run_, init, steps, ans, inp)
-    ctx.notes.append("outer-loop termination is proved only under the stated hypothesis on the observed counts (path_terminates_if_count_drops); "
+    ctx.notes.append("outer-loop termination is proved only under the stated hypothesis on the observed counts (path_terminates_if_count_drops_partial); "
                      "alpha = 0 keeps alpha*m^t = 0 (alpha_zero_stays_zero) and is reported by the bounded probe")
     ctx.assumptions.append("the trace recorded by wrapping compute_val_score/_update_weights/_n_selected_features is what _path observed "
                            "(checked: l1 = penalty*clf.alpha per call, sequence of _n_selected_features() values)")
